@@ -56,6 +56,8 @@ package nbhttp
 //@   ensures old(res.chunkChecked) ==> res.chunked == old(res.chunked)
 //@   ensures res.chunkChecked
 //@   ensures excl: !old(res.chunkChecked) && res.chunked && res.header != nil ==> !has(res.header, contentLengthHeader)   // prop C09
+//@   note framing choice (C09): an HTTP/1.1 exchange without a Content-Length header, whose status allows a body, is chunked - whatever has or has not been written yet
+//@   ensures chunk11: !old(res.chunkChecked) && atLeast11(res.request) && !old(has(res.header, contentLengthHeader)) && res.statusCode != 204 && res.statusCode != 304 ==> res.chunked   // prop C09
 //@   assigns res.chunked, res.chunkChecked, allmaps("string", "[]string"), allelems("string"), allocates
 //@   loop 1
 //@     invariant rangeindex >= -1 && res.chunkChecked && res.chunked == old(res.chunked)
